@@ -16,6 +16,19 @@ EXCLUDE_FILES = {os.path.join(PKG, "sharepoint_io", "run_test_setup.py")}
 EXTR = "sharepoint2text/parsing/extractors/"
 
 
+_INVENTORY = os.path.join(os.path.dirname(os.path.dirname(os.path.abspath(__file__))), "inventory.json")
+
+
+def _load_inventory():
+    """{rel path: [function quals]} of the reference tree (tools/gen_inventory.py); None when the file is absent"""
+    import json
+
+    if os.environ.get("SA_NO_INLINE") == "1" or not os.path.exists(_INVENTORY):
+        return None
+    with open(_INVENTORY, "r", encoding="utf-8") as fh:
+        return json.load(fh)["functions"]
+
+
 class AnalysisError(Exception):
     """Analyser cannot decide (vanished anchor, unrecognised idiom, unparsable file)."""
 
@@ -142,6 +155,7 @@ class Project:
 
     def _load(self):
         seen = set()
+        parsed = []
         for rel, full in self._iter_files():
             if rel in seen:
                 continue
@@ -155,6 +169,34 @@ class Project:
                 tree = ast.parse(src, filename=rel)
             except SyntaxError as exc:
                 raise AnalysisError(f"cannot parse {rel}: {exc}") from exc
+            parsed.append((rel, src, tree))
+        # inlining normal form (engine/inline.py): private helpers the reference inventory does not know are expanded at their call sites
+        self.inlined: dict[str, dict] = {}
+        inventory = _load_inventory()
+        if inventory is not None:
+            from .inline import inline_new_helpers, remove_unreferenced
+
+            done = []
+            for rel, src, tree in parsed:
+                known = inventory.get(rel)
+                if known is None:
+                    continue
+                tree2, expanded, refused = inline_new_helpers(tree, set(known))
+                if expanded or refused:
+                    self.inlined[rel] = {"expanded": expanded, "kept_as_calls": refused}
+                    if expanded:
+                        done.append((rel, tree2, expanded))
+            for rel, tree2, expanded in done:
+                elsewhere = set()
+                for rel_o, _s, tree_o in parsed:
+                    if rel_o != rel:
+                        for n in ast.walk(tree_o):
+                            if isinstance(n, ast.ImportFrom):
+                                elsewhere.update(a.name for a in n.names)
+                            elif isinstance(n, ast.Attribute):
+                                elsewhere.add(n.attr)
+                self.inlined[rel]["removed"] = remove_unreferenced(tree2, expanded, elsewhere)
+        for rel, src, tree in parsed:
             tree = canonicalise(tree)
             modname = rel[:-3].replace("/", ".")
             if modname.endswith(".__init__"):
@@ -518,6 +560,19 @@ class _Canon(ast.NodeTransformer):
             out.append(st)
         return out
 
+    @staticmethod
+    def _join_branches(body):
+        """`if C: x = A else: x = B` (one plain assignment to the same name on either side)  ->  `x = A if C else B`"""
+        out = []
+        for st in body:
+            if (isinstance(st, ast.If) and len(st.body) == 1 and len(st.orelse) == 1 and all(isinstance(b, ast.Assign) and len(b.targets) == 1 and isinstance(b.targets[0], ast.Name) for b in (st.body[0], st.orelse[0]))
+                    and st.body[0].targets[0].id == st.orelse[0].targets[0].id):
+                val = ast.copy_location(ast.IfExp(test=st.test, body=st.body[0].value, orelse=st.orelse[0].value), st)
+                out.append(ast.copy_location(ast.Assign(targets=[st.body[0].targets[0]], value=val), st))
+            else:
+                out.append(st)
+        return out
+
     def _canon_fn(self, node):
         cnt = self._blocked(node)
         for sub in ast.walk(node):
@@ -526,10 +581,10 @@ class _Canon(ast.NodeTransformer):
             for f in ("body", "orelse", "finalbody"):
                 b = getattr(sub, f, None)
                 if isinstance(b, list) and b and isinstance(b[0], ast.stmt):
-                    setattr(sub, f, self._fold_body(self._hoist_else(b), cnt))
+                    setattr(sub, f, self._fold_body(self._join_branches(self._hoist_else(b)), cnt))
             if isinstance(sub, ast.Try):
                 for h in sub.handlers:
-                    h.body = self._fold_body(self._hoist_else(h.body), cnt)
+                    h.body = self._fold_body(self._join_branches(self._hoist_else(h.body)), cnt)
 
     def visit_FunctionDef(self, node):
         self.generic_visit(node)
